@@ -192,7 +192,7 @@ class Harness(cm.BaseA):
     def canon(self, W, config):
         parts = []
         for n, lw in sorted(W["lw"].items()):
-            parts.append(lw._volumes.tobytes())
+            parts.append(lw.volumes.astype(float).tobytes())
             for k in sorted(lw.composition):
                 parts.append(k.encode())
                 parts.append(lw.composition[k].tobytes())
